@@ -31,7 +31,7 @@ ASSUMPTIONS = [
 ]
 BOUNDS = {
     "quick": "dispatcher + all observers: K3[seed%2::2] + small probes, 1 fault, builder disjunctive/agent-task alternating; env: K3[::6] + 2x2 probe",
-    "thorough": "dispatcher: K3 complete 1 and 2 faults, K4[seed%16::16] 1 fault; env: K3[::2], small probes",
+    "thorough": "dispatcher: K3 complete 1 fault; all ordered pairs of faults on K3 instances with <= 2 operations and K3[seed%8::8]; K4[seed%16::16] 1 fault; env: K3[::2], small probes",
 }
 
 
@@ -47,7 +47,10 @@ def cases(tier, seed):
         out.append(("env", F.P_2X2))
     else:
         for i, s in enumerate(F.K3()):
-            out.append(("dispatcher", s, 2, _env.BUILDERS[i % 4]))
+            # all ordered pairs of faults on the <= 2-operation instances and a
+            # slice of the 3-operation ones; single faults (cold rebuild each) on all
+            pairs = F.n_ops(s) <= 2 or i % 8 == seed % 8
+            out.append(("dispatcher", s, 2 if pairs else 1, _env.BUILDERS[i % 4]))
         for i, s in enumerate(F.sliced(F.K4(), seed % 16, 16)):
             out.append(("dispatcher", s, 1, _env.BUILDERS[i % 4]))
         for s in F.P_SMALL:
